@@ -73,7 +73,7 @@ pub fn c01_node_case(ctx: &Ctx, c: &C01Node) -> Vec<Viol> {
 }
 
 pub fn c01_node(ctx: &Ctx) {
-    let n: u32 = ctx.tier.pick(300, 6_000);
+    let n: u32 = ctx.tier.pick(1_500, 12_000);
     let states = [RState::Unknown, RState::PendingInitiator, RState::PendingResponder, RState::EstLinger, RState::EstNoLinger, RState::EstResponder];
     ctx.proptest(
         "pt-c01-node",
@@ -281,7 +281,7 @@ pub fn c02_node_case(ctx: &Ctx, c: &C02Node) -> Vec<Viol> {
 }
 
 pub fn c02_node(ctx: &Ctx) {
-    let n: u32 = ctx.tier.pick(60, 1_500);
+    let n: u32 = ctx.tier.pick(300, 4_000);
     ctx.proptest("pt-c02-node", n, || (any::<[u8; 3]>(), any::<u64>(), any::<u8>()), |(algos, seed, frames)| {
         let c = C02Node { algos: [algos[0] & 0xf, algos[1] & 0xf, algos[2] & 0xf], seed: *seed, frames: *frames };
         let v = c02_node_case(ctx, &c);
@@ -478,7 +478,7 @@ pub fn c05_node_case(ctx: &Ctx, c: &C05Node) -> Vec<Viol> {
 }
 
 pub fn c05_node(ctx: &Ctx) {
-    let n: u32 = ctx.tier.pick(150, 3_000);
+    let n: u32 = ctx.tier.pick(500, 6_000);
     ctx.proptest(
         "pt-c05-node",
         n,
@@ -578,7 +578,7 @@ pub fn c11_node_case(ctx: &Ctx, c: &C11Node) -> Vec<Viol> {
 }
 
 pub fn c11_node(ctx: &Ctx) {
-    let n: u32 = ctx.tier.pick(200, 4_000);
+    let n: u32 = ctx.tier.pick(800, 8_000);
     let pool: Vec<[u8; 3]> = vec![[1, 2, 3], [1, 2, 4], [1, 3, 1], [0, 0, 1], [2, 0, 1], [9, 0, 2], [1, 2, 0], [255, 255, 255]];
     ctx.proptest(
         "pt-c11-node",
@@ -856,7 +856,7 @@ pub fn c12_node(ctx: &Ctx) {
     }
     ctx.sample("scripted-peer-scenario", || json!(format!("{:?}", scenarios[4])));
     ctx.subspace("node level: 6 directed scripted-peer scenarios (shrink, restart, close, silence, failing second handshake)", scenarios.len() as u64, true);
-    let n: u32 = ctx.tier.pick(300, 6_000);
+    let n: u32 = ctx.tier.pick(1_000, 12_000);
     ctx.proptest("pt-c12-node", n, || proptest::collection::vec(peer_act_strategy(), 1..10), |acts| c12_node_case(ctx, &C12Node { acts: acts.clone() }));
     ctx.subspace("node level: proptest scripted-peer histories (announce / restart / half restart / silence / close / traffic)", n as u64, false);
 }
